@@ -10,7 +10,7 @@ from .c14 import spec_parse
 MANIFEST = dict(
     engines="AC",
     technique="AST-to-SMT translation with state merging (pysym + z3 Int) of the current source of _compare/_version_cmp_part/_version_cmp_string/_order, proved equivalent to a translation of dpkg's verrevcmp for all strings up to length N with unwinding assertions; CrossHair symbolic execution of the operator glue; solver-generated equal pairs for the hash law",
-    text="Engine C: one SMT query per length pair (|a|,|b| <= N; N=4 quick, 6 thorough) shows that the real comparison kernel, re-translated from /repo's source on every run, returns the same sign as dpkg's verrevcmp for every pair of strings over the version alphabet, never raises, is antisymmetric and (smaller bound) transitive; every loop unrolling is justified by a separately discharged unwinding assertion. The composition with epochs and absent revisions (_compare) is proved the same way for short components. Engine A executes Version.__lt__..__ge__, ==, != and version_compare symbolically on whole version strings (<= 2-3 chars each) against the dpkg reference. Hash agreement is checked on solver-generated pairs that compare equal but differ as strings (not a bounded for-all verdict: hash() is C).",
+    text="Engine C: one SMT query per length pair (|a|,|b| <= N; N=4 quick, 6 thorough) shows that the real comparison kernel, re-translated from /repo's source on every run, returns the same sign as dpkg's verrevcmp for every pair of strings over the version alphabet, never raises, is antisymmetric and (smaller bound) transitive; every loop unrolling is justified by a separately discharged unwinding assertion. The composition with epochs and absent revisions (_compare) is proved the same way for short components. Engine A executes Version.__lt__..__ge__, ==, != and version_compare symbolically on whole version strings (<= 2-3 chars each) against the dpkg reference. Hash agreement is checked on solver-generated pairs that compare equal but differ as strings (not a bounded for-all verdict: hash() is C). Long shapes: concrete prefixes of 9/10/14/19/20 digits with symbolic tails of up to 2 (thorough: 3) characters against the dpkg reference (engine A, kernel called directly); class-level {str:int} tables are read from the live class by engine C.",
     note="Trusted: z3 (Int/ite fragment), the pysym translator (validated on every run against concrete execution of the real functions on the repository's own comparison vectors and random pairs), the dpkg reference in vf/oracles/dpkg_cmp.py (written from lib/dpkg/version.c). Outside: lengths beyond N, AptPkgVersion, dpkg-invalid strings ('-', '1-', '-9').",
 )
 
